@@ -38,6 +38,8 @@ type op struct {
 	A int    `json:"a,omitempty"` // accept/serveconn: address index; others: index into the candidates (mod their number)
 	L int    `json:"l,omitempty"` // accept/servestop: index into the running loops (mod their number)
 	E bool   `json:"e,omitempty"` // accept/serveconn: Close of this connection's net.Conn returns an error
+	M int    `json:"m,omitempty"` // accept/serveconn: 0 = sends a request, 1 = connects and closes without sending anything, 2 = sends garbage and closes
+	B bool   `json:"b,omitempty"` // hijack: with HijackSetNoResponse(true)
 }
 
 type desc struct {
@@ -374,6 +376,9 @@ type connRec struct {
 	hjDone        chan struct{}
 	wrapped       bool // harness' expectation: MaxConnsPerIP > 0 and an IPv4 address
 	liveAtArrival int
+	mode          int  // 0 request, 1 silent client, 2 garbage
+	noReq         bool // served without any handler call (silent / garbage client)
+	hjNoResp      bool
 	serving       bool // inside the request loop (controller's view)
 	hijacked      bool
 	hjRun         bool
@@ -441,6 +446,9 @@ func (rp *replayer) handler(ctx *fasthttp.RequestCtx) {
 		ctx.SetConnectionClose()
 	case cmdNext:
 	case cmdHijack:
+		if r.hjNoResp {
+			ctx.HijackSetNoResponse(true)
+		}
 		ctx.Hijack(func(c net.Conn) {
 			r.hjConn = c
 			close(r.hjStart)
@@ -513,7 +521,7 @@ func (rp *replayer) emit(labels []string) {
 	rp.blocks = append(rp.blocks, fmt.Sprintf("(Blk %s %s)", hlib.List(labels), o))
 }
 
-func (rp *replayer) newConn(ai int, loop int, closeErr bool) *connRec {
+func (rp *replayer) newConn(ai int, loop int, closeErr bool, mode int) *connRec {
 	a := addrs[ai%len(addrs)]
 	id := len(rp.conns)
 	r := &connRec{id: id, a: a, c: newConn(id, a.addr), loop: loop, enterCh: make(chan struct{}, 8), exitCh: make(chan struct{}, 8), cmd: make(chan int, 1),
@@ -527,7 +535,16 @@ func (rp *replayer) newConn(ai int, loop int, closeErr bool) *connRec {
 			}
 		}
 	}
-	r.c.feed(fmt.Sprintf("GET /%d HTTP/1.1\r\nHost: h\r\n\r\n", id))
+	r.mode = mode
+	switch mode {
+	case 1:
+		r.c.setEOF()
+	case 2:
+		r.c.feed("BOGUS\r\n\r\n")
+		r.c.setEOF()
+	default:
+		r.c.feed(fmt.Sprintf("GET /%d HTTP/1.1\r\nHost: h\r\n\r\n", id))
+	}
 	rp.mu.Lock()
 	rp.conns = append(rp.conns, r)
 	rp.mu.Unlock()
@@ -622,14 +639,14 @@ func (rp *replayer) waitOutcome(r *connRec) (served bool) {
 	}
 }
 
-func (rp *replayer) accept(li, ai int, closeErr bool) {
+func (rp *replayer) accept(li, ai int, closeErr bool, mode int) {
 	ks := rp.runningLoops()
 	if len(ks) == 0 {
 		return
 	}
 	k := ks[li%len(ks)]
 	l := rp.loops[k]
-	r := rp.newConn(ai, k, closeErr)
+	r := rp.newConn(ai, k, closeErr, mode)
 	before := l.ln.waiting.Load()
 	select {
 	case l.ln.ch <- r.c:
@@ -658,15 +675,30 @@ func (rp *replayer) accept(li, ai int, closeErr bool) {
 	case r.c.status() == fasthttp.StatusTooManyRequests:
 		r.rejected = true
 		labels = append(labels, "LRejectIP "+n(r.id))
-	default:
+	case r.c.status() == fasthttp.StatusServiceUnavailable:
 		r.rejected = true
 		labels = append(labels, "LOpenInc "+n(r.id), "LGetChFail "+n(r.id), "LRejectDec "+n(r.id), "LRejectConc "+n(r.id)+" "+hlib.Bool(r.c.closeErr))
+	case r.mode != 0:
+		// a client that sends nothing (or garbage) and goes away: served by a worker without any handler call, then closed
+		r.noReq = true
+		if l.ready > 0 {
+			l.ready--
+		} else {
+			l.wcount++
+		}
+		l.ready++ // the worker is released again (the loop is running: it was accepted just now)
+		rp.waitParked()
+		labels = append(labels, "LOpenInc "+n(r.id), "LGetChOk "+n(r.id), "LStart "+n(r.id), "LFinish "+n(r.id), "LCleanupOpen "+n(r.id),
+			"LCleanupConc "+n(r.id), "LCloseAfter "+n(r.id)+" "+hlib.Bool(r.c.closeErr), "LWorkerRelease "+n(r.id))
+	default:
+		r.stuck = true
+		rp.stuck = true
 	}
 	rp.emit(labels)
 }
 
-func (rp *replayer) serveConn(ai int, closeErr bool) {
-	r := rp.newConn(ai, -1, closeErr)
+func (rp *replayer) serveConn(ai int, closeErr bool, mode int) {
+	r := rp.newConn(ai, -1, closeErr, mode)
 	rp.nSC++
 	go func() { r.done <- rp.s.ServeConn(r.c) }()
 	labels := []string{"LServeConn " + r.a.coq}
@@ -694,6 +726,11 @@ func (rp *replayer) serveConn(ai int, closeErr bool) {
 	case err == fasthttp.ErrConcurrencyLimit:
 		r.rejected = true
 		labels = append(labels, "LTryAcquire "+n(r.id), "LAcquireFail "+n(r.id), "LRejectConc "+n(r.id)+" "+hlib.Bool(r.c.closeErr))
+	case r.mode != 0 && r.c.status() != fasthttp.StatusTooManyRequests && r.c.status() != fasthttp.StatusServiceUnavailable:
+		// a client that sends nothing (or garbage) and goes away: ServeConn served it without any handler call and returned
+		r.noReq = true
+		labels = append(labels, "LTryAcquire "+n(r.id), "LOpenInc "+n(r.id), "LFinish "+n(r.id), "LCleanupOpen "+n(r.id),
+			"LCloseAfter "+n(r.id)+" "+hlib.Bool(r.c.closeErr), "LReleaseConc "+n(r.id))
 	default:
 		// ServeConn returned something else without entering the handler: leave it to the comparison to complain
 		r.rejected = true
@@ -877,9 +914,9 @@ func (rp *replayer) run() {
 		case "servestop":
 			rp.serveStop(o.L)
 		case "accept":
-			rp.accept(o.L, o.A, o.E)
+			rp.accept(o.L, o.A, o.E, o.M)
 		case "serveconn":
-			rp.serveConn(o.A, o.E)
+			rp.serveConn(o.A, o.E, o.M)
 		case "next":
 			rp.next(o.A)
 		case "idle":
@@ -889,6 +926,9 @@ func (rp *replayer) run() {
 		case "eof":
 			rp.finish(o.A, endEOF)
 		case "hijack":
+			if r := rp.pick(func(r *connRec) bool { return r.serving }, o.A); r != nil {
+				r.hjNoResp = o.B
+			}
 			rp.finish(o.A, endHijack)
 		case "hijackdone":
 			if r := rp.pick(func(r *connRec) bool { return r.hjRun }, o.A); r != nil {
@@ -971,7 +1011,7 @@ func (rp *replayer) cleanup() {
 
 func connRes(r *connRec) string {
 	st := r.c.status()
-	if r.stuck || (r.entered.Load() == 0 && !r.rejected) {
+	if r.stuck || (r.entered.Load() == 0 && !r.rejected && !r.noReq) {
 		st = -1
 	}
 	return fmt.Sprintf("(mkCR %s %s %s %s)", hlib.Z(int64(st)), hlib.Z(int64(r.entered.Load())), hlib.Z(int64(r.c.nCloses())), hlib.Z(int64(r.liveAtArrival)))
@@ -1309,6 +1349,15 @@ func genReplay(r *rand.Rand) desc {
 		return r.Intn(len(addrs))
 	}
 	failing := r.Intn(3) == 0 // in a third of the cases many connections fail on Close
+	mode := func() int {
+		switch r.Intn(12) {
+		case 0:
+			return 1
+		case 1:
+			return 2
+		}
+		return 0
+	}
 	cerr := func() bool {
 		if failing {
 			return r.Intn(3) != 0
@@ -1327,14 +1376,14 @@ func genReplay(r *rand.Rand) desc {
 		case x < 40:
 			switch {
 			case class < 4:
-				d.Ops = append(d.Ops, op{K: "serveconn", A: addr(), E: cerr()})
+				d.Ops = append(d.Ops, op{K: "serveconn", A: addr(), E: cerr(), M: mode()})
 			case class < 8:
-				d.Ops = append(d.Ops, op{K: "accept", A: addr(), L: r.Intn(3), E: cerr()})
+				d.Ops = append(d.Ops, op{K: "accept", A: addr(), L: r.Intn(3), E: cerr(), M: mode()})
 			default:
 				if r.Intn(2) == 0 {
-					d.Ops = append(d.Ops, op{K: "serveconn", A: addr(), E: cerr()})
+					d.Ops = append(d.Ops, op{K: "serveconn", A: addr(), E: cerr(), M: mode()})
 				} else {
-					d.Ops = append(d.Ops, op{K: "accept", A: addr(), L: r.Intn(3), E: cerr()})
+					d.Ops = append(d.Ops, op{K: "accept", A: addr(), L: r.Intn(3), E: cerr(), M: mode()})
 				}
 			}
 		case x < 58:
@@ -1346,7 +1395,7 @@ func genReplay(r *rand.Rand) desc {
 		case x < 72:
 			d.Ops = append(d.Ops, op{K: "eof", A: r.Intn(8)})
 		case x < 82:
-			d.Ops = append(d.Ops, op{K: "hijack", A: r.Intn(8)})
+			d.Ops = append(d.Ops, op{K: "hijack", A: r.Intn(8), B: r.Intn(3) == 0})
 		case x < 89:
 			d.Ops = append(d.Ops, op{K: "hijackdone", A: r.Intn(8)})
 		case x < 93:
@@ -1383,8 +1432,17 @@ func ops(s string) []op {
 	for _, f := range strings.Fields(s) {
 		e := strings.HasSuffix(f, "!")
 		f = strings.TrimSuffix(f, "!")
+		m := 0
+		switch {
+		case strings.HasSuffix(f, "~"):
+			m, f = 1, strings.TrimSuffix(f, "~")
+		case strings.HasSuffix(f, "?"):
+			m, f = 2, strings.TrimSuffix(f, "?")
+		}
+		b := strings.HasSuffix(f, "^")
+		f = strings.TrimSuffix(f, "^")
 		parts := strings.Split(f, ":")
-		o := op{K: parts[0], E: e}
+		o := op{K: parts[0], E: e, M: m, B: b}
 		if len(parts) > 1 {
 			o.A, _ = strconv.Atoi(parts[1])
 		}
@@ -1435,6 +1493,11 @@ func corpus() []desc {
 		{Mode: "replay", Conc: 2, MaxIP: 1, EndStop: 1, Ops: ops("servestart accept:0! idle userclose accept:0! idle closetwice accept:0! idle eof accept:0 finish")},
 		{Mode: "replay", Conc: 1, MaxIP: 2, Ops: ops("serveconn:0 serveconn:0! serveconn:0! finish serveconn:0 serveconn:0 finish finish")},
 		{Mode: "replay", Conc: 1, MaxIP: 2, EndStop: 1, Ops: ops("servestart accept:0 accept:0! accept:3! finish accept:0 accept:8 finish finish")},
+		// clients that connect and go away without a request, or send garbage (400): counted while the connection is served, nothing left behind;
+		// rejected like everybody else when a limit is reached; a hijack with HijackSetNoResponse
+		{Mode: "replay", Conc: 1, MaxIP: 1, Ops: ops("serveconn:0~ serveconn:0? serveconn:0 serveconn:0~ serveconn:1? finish serveconn:0~!")},
+		{Mode: "replay", Conc: 1, MaxIP: 2, EndStop: 1, Ops: ops("servestart accept:0~ accept:0? accept:0 accept:0~ accept:1? accept:0! finish accept:0?! accept:3~")},
+		{Mode: "replay", Conc: 2, MaxIP: 1, Ops: ops("serveconn:0 hijack:0^ serveconn:0~ hijackdone serveconn:0? serveconn:0 finish")},
 		// workers are reused after release, and exit when their Serve has returned
 		{Mode: "replay", Conc: 2, MaxIP: 0, EndStop: 1, Ops: ops("servestart accept:0 accept:1 accept:2 finish:1 accept:2 servestop:0 finish:0 finish:0")},
 		// regression for the repaired finding peripconn-stale-close-hits-recycled-wrapper (bf2f4e5): a Close through an old reference
